@@ -30,6 +30,24 @@ func (c *c14) Plan(seed uint64, tier string, worker, workers, idx int) *Plan {
 	p.Pool = []string{"lifo", "adversarial", "steal", "fifo"}[r.Intn(4)]
 	p.Sched = core.SchedSpec{Kind: []string{"random", "pct", "rtc"}[r.Intn(3)], D: r.Range(1, 3), Preempt: 50 + r.Intn(300), Horizon: 400}
 	universe := pickUniverse(r, r.Range(4, 8))
+	// two of the repository's own samples (any format): extensions may hang anywhere on their detection paths
+	for i := 0; i < 2; i++ {
+		universe = append(universe, inputs.Input{Fam: "corpus", V: r.Intn(1 << 12)})
+	}
+	if r.Chance(1, 3) {
+		// a relative of the first one: another sample whose path shares the first two levels below the root
+		first := lib.B(universe[len(universe)-2].Bytes(), 0)
+		if n := len(first.Chain); n >= 3 {
+			for try := 0; try < 24; try++ {
+				c := inputs.Input{Fam: "corpus", V: r.Intn(1 << 12)}
+				b := lib.B(c.Bytes(), 0)
+				if m := len(b.Chain); m >= 3 && b.Chain[m-2] == first.Chain[n-2] && (n < 4 || m < 4 || b.Chain[m-3] == first.Chain[n-3]) && b.Key() != first.Key() {
+					universe[len(universe)-1] = c
+					break
+				}
+			}
+		}
+	}
 	other := c14Limits[r.Intn(len(c14Limits))]
 	if r.Chance(1, 12) {
 		if r.Chance(1, 2) {
@@ -46,9 +64,9 @@ func (c *c14) Plan(seed uint64, tier string, worker, workers, idx int) *Plan {
 	}
 	nExt := r.Range(1, 10)
 	p.Slots = 6
-	template := r.Intn(24) // 0-2 crowd, 3-6 chain, else free histories
-	g.charsetNamesOn = template >= 7 && r.Chance(1, 3)
-	if template >= 7 && r.Chance(1, 4) {
+	template := r.Intn(27) // 0-2 crowd, 3-6 chain, 7-9 kin, else free histories
+	g.charsetNamesOn = template >= 10 && r.Chance(1, 3)
+	if template >= 10 && r.Chance(1, 4) {
 		g.setCollide()
 	}
 	slot := 0
@@ -167,6 +185,50 @@ func (c *c14) Plan(seed uint64, tier string, worker, workers, idx int) *Plan {
 			}
 		}
 		ops = battery(ops, r.Range(1, 4), false)
+		p.Tasks = [][]Op{ops}
+		return p
+	}
+	if template < 10 {
+		// kin: two of the repository's samples whose detection paths share their upper
+		// levels; accepting extensions on the deepest node of each path and on nodes
+		// further up, in varying order: registrations on neighbouring subtrees must not
+		// disturb each other (a cache shared between siblings, an index keyed too coarsely)
+		nu := len(universe)
+		ins := []inputs.Input{universe[nu-2], universe[nu-1]}
+		var ops []Op
+		type spot struct {
+			name string
+			in   *inputs.Input
+		}
+		var spots []spot
+		for i := range ins {
+			names := lookupablePath(ins[i].Bytes())
+			for d, nm := range names {
+				if nm != "" && (d == 0 || r.Chance(1, 3)) {
+					spots = append(spots, spot{nm, &ins[i]})
+				}
+			}
+		}
+		for i := len(spots) - 1; i > 0; i-- {
+			j := r.Intn(i + 1)
+			spots[i], spots[j] = spots[j], spots[i]
+		}
+		for _, sp := range spots {
+			x := lib.Header(sp.in.Bytes(), p.Limit0)
+			e := g.accepting(sp.name, x)
+			if r.Chance(1, 4) {
+				e.Pred = model.Pred{Never: true}
+			}
+			ops = append(ops, Op{Kind: "extend", Ext: e})
+			for i := range ins {
+				ops = append(ops, Op{Kind: "detect", In: &ins[i]})
+			}
+			if g.mayLookup(e.Mime) && r.Chance(1, 2) {
+				ops = append(ops, Op{Kind: "lookup", Name: e.Mime, Ext: e})
+			}
+		}
+		ops = battery(ops, r.Range(1, 4), false)
+		ops = uses(ops)
 		p.Tasks = [][]Op{ops}
 		return p
 	}
@@ -438,3 +500,25 @@ func sampleOfRun(rr *RunResult, maxOps int) map[string]any {
 
 var _ = inputs.Families
 var _ = lib.Bare
+
+// lookupablePath lists, leaf first and without the root, the names of the built-in
+// nodes on the detection path of x; "" where Lookup(name) would reach another node.
+func lookupablePath(x []byte) []string {
+	b := lib.B(x, 0)
+	if b.Nil || len(b.Chain) < 2 {
+		return nil
+	}
+	out := make([]string, len(b.Chain)-1)
+	for k := range out {
+		name := lib.Bare(b.Chain[k].Str)
+		lb := lib.LB(name)
+		ok := !lb.Nil && len(lb.Chain) == len(b.Chain)-k
+		for i := 0; ok && i < len(lb.Chain); i++ {
+			ok = lib.Bare(lb.Chain[i].Str) == lib.Bare(b.Chain[k+i].Str) && lb.Chain[i].Ext == b.Chain[k+i].Ext
+		}
+		if ok {
+			out[k] = name
+		}
+	}
+	return out
+}
